@@ -141,6 +141,8 @@ type Result struct {
 	// ResumeBitfield is the bitfield stored in the resume database after the session was closed.
 	ResumeBitfield []byte
 	ResumeErr      string
+	// LateRejects: rejects the honest scripted peers sent after an unchoke frame (see refpeer.SeederCfg.LateReject)
+	LateRejects int
 }
 
 // GenSpec draws a scenario. mode "c10": at least one reachable honest full source.
@@ -266,6 +268,7 @@ func seederCfg(p PeerSpec, ct *refpeer.Content, info []byte, r *rand.Rand) refpe
 			cfg.ChokeEvery = 1 + (p.Param/4)%5
 			cfg.ChokePause = time.Duration(3+(p.Param/4)%30) * time.Millisecond
 			cfg.LateServe = p.Param&2 != 0
+			cfg.LateReject = p.Param&2 != 0 // the same bit: LateServe acts on plain connections, LateReject on fast ones
 		}
 	case "corrupt-one":
 		bad := p.Param % np
@@ -623,6 +626,7 @@ func Run(spec *Spec, dir string) *Result {
 		live := 0
 		for _, st := range sr.States {
 			st.Mu.Lock()
+			res.LateRejects += st.LateRejects
 			if !st.Closed {
 				live++
 				res.HonestAtEnd = append(res.HonestAtEnd, fmt.Sprintf("%s connected unchoked=%v interested=%v outstanding=%d served=%d", sr.Addr, st.Unchoked, st.Interested, len(st.Outstanding), st.Served))
